@@ -19,6 +19,8 @@ def run(prog, rep):
     rep.attempt(lambda: M.unused_size_zero(ct, rep))
     rep.attempt(lambda: M.offset_provenance(ct, rep))
     rep.attempt(lambda: M.repoint_later(ct, rep))
+    # every live range stays inside the file only if a removal moves the WHOLE tail up and cuts exactly what is left over
+    rep.attempt(lambda: M.tail_move(ct, rep))
     # the offsets computed above describe the FILE only if every table change is also written to its slot
     rep.attempt(lambda: M.dirty_entry(ct, rep, rule="table-pairing"))
     rep.attempt(lambda: M.slot_position(ct, rep, rule="table-pairing/slot"))
